@@ -1,5 +1,100 @@
-(* C29 — placeholder while the proofs are being written *)
-From Hio Require Import Base.Prelude Model.Path.
-Theorem C29_tmp : forall d, climbs_from d [] = false.
-Proof. reflexivity. Qed.
-Print Assumptions C29_tmp.
+(* C29 — Filer: file resources stay inside their head directory and temp
+   resources are removed.  Statements only; proofs in Proofs/PathProofs.v.
+   The model (Model/Path.v) is the tree after the two D32 repairs; all
+   theorems are full strength over the model's domain: any name and base
+   (segment lists: dotted, empty, climbing, absolute), any of the 16 flag
+   combinations, any extension, any initial file system satisfying [env].
+
+   Vocabulary: [prefix a b] = b is a or below a; [inside a b] = b is strictly
+   below a; [w_log] is the list of file-system effects (MkDir, MkFile,
+   RmTree, RmFile) in execution order; [env c w] says that the head and alt
+   directories and everything above them (and above the directory mkdtemp
+   makes) exist and that neither head lies inside the other. *)
+From Hio Require Import Base.Prelude Model.Path Proofs.PathProofs.
+
+(* Everything the constructor (Filer.remake) creates or deletes lies strictly
+   inside the head directory (or the alt head it falls back to), and, for a
+   temp Filer, at or below the directory mkdtemp made; nothing at or above a
+   head directory disappears. *)
+Theorem C29_inside : forall c w r w',
+  env c w -> remake c w = (r, w') ->
+  (exists l, w_log w' = w_log w ++ l /\
+     Forall (fun e => if c_temp c then prefix (c_tmp c) (eff_path e)
+                      else inside (c_head c) (eff_path e) \/ inside (c_alt c) (eff_path e)) l) /\
+  (forall q, prefix q (c_head c) \/ prefix q (c_alt c) -> c_temp c = false ->
+             exists_ (w_fs w') q = true).
+Proof.
+  intros c w r w' E H. destruct (remake_effects c w r w' E H) as [L K]. split; [exact L|].
+  intros q Hq Ht. apply K.
+  - destruct Hq as [Hq|Hq]; [apply (notQ_above c w (c_head c) q) | apply (notQ_above c w (c_alt c) q)]; auto.
+  - destruct Hq; [now apply (e_head c w E) | now apply (e_alt c w E)].
+Qed.
+Print Assumptions C29_inside.
+
+(* The path itself is strictly inside its head directory, below the tail. *)
+Theorem C29_path : forall c w p w',
+  remake c w = (Ok p, w') ->
+  if c_temp c then prefix (c_tmp c ++ tail_of (c_clean c) false) p /\ inside (c_tmp c) p
+  else (prefix (c_head c ++ tail_of (c_clean c) false) p /\ inside (c_head c) p) \/
+       (prefix (c_alt c ++ tail_of (c_clean c) true) p /\ inside (c_alt c) p).
+Proof.
+  intros c w p w' H. pose proof (remake_path c w p w' H) as P. destruct (c_temp c).
+  - split; auto. eapply tail_inside; eauto.
+  - destruct P as [P|P]; [left|right]; (split; auto; eapply tail_inside; eauto).
+Qed.
+Print Assumptions C29_path.
+
+(* An absolute name or base, or a base/name that climbs out with '..', is
+   rejected before anything is touched. *)
+Theorem C29_rejected : forall c w,
+  let name := if c_filed c || c_ext c then add_ext (c_name c) (c_fext c) else c_name c in
+  isabs (c_name c) || isabs (c_base c) || climbs (c_base c ++ name) = true ->
+  remake c w = (Exc OtherErr, w).
+Proof. exact remake_rejected. Qed.
+Print Assumptions C29_rejected.
+
+(* close(clear=True) deletes only at or below its own path (at or below the
+   mkdtemp directory when temp), creates nothing, and nothing outside that
+   scope disappears. *)
+Theorem C29_clear_scope : forall c p w r w',
+  (c_temp c = true -> inside (c_tmp c) p) ->
+  clear c p w = (r, w') ->
+  (exists l, w_log w' = w_log w ++ l /\
+     Forall (fun e => (if c_temp c then prefix (c_tmp c) (eff_path e) else prefix p (eff_path e)) /\
+                      is_rm e) l) /\
+  (forall q, ~ (if c_temp c then prefix (c_tmp c) q else prefix p q) ->
+             exists_ (w_fs w) q = true -> exists_ (w_fs w') q = true).
+Proof.
+  intros c p w r w' Hin H. destruct (clear_effects c p w r w' Hin H) as [(l & Hl & F) K].
+  split; [|exact K]. exists l. split; auto.
+  destruct (clear_only_removes c p w r w' H) as (l' & Hl' & R).
+  rewrite Hl in Hl'. apply app_inv_head in Hl'. subst l'.
+  clear Hl. induction l; constructor; inversion F; inversion R; subst; auto.
+Qed.
+Print Assumptions C29_clear_scope.
+
+(* After a successful close(clear=True) the path is gone; for a temp Filer
+   the mkdtemp directory and everything below it is gone. *)
+Theorem C29_clear_removes : forall c p w w',
+  clear c p w = (Ok tt, w') -> p <> [] ->
+  exists_ (w_fs w') p = false /\
+  (c_temp c = true -> inside (c_tmp c) p -> isdir (w_fs w) (c_tmp c) = true ->
+   forall q, prefix (c_tmp c) q -> q <> [] -> exists_ (w_fs w') q = false).
+Proof. exact clear_removes. Qed.
+Print Assumptions C29_clear_removes.
+
+(* Non-vacuity: head "h", alt "a", mkdtemp directory "t/T"; a temp, filed
+   Filer with name "a/../x" and base "b" is accepted, name "../../x" is not. *)
+Example C29_example :
+  let s := fun n : N => [n] in
+  let c := {| c_name := [s 97; [46; 46]; s 120]%N; c_base := [s 98]%N; c_temp := true; c_clean := false;
+              c_filed := true; c_ext := false; c_fext := s 116%N; c_head := [s 104]%N; c_alt := [s 97]%N;
+              c_tmp := [s 116; s 84]%N |} in
+  let w := {| w_fs := [([s 104], false); ([s 97], false); ([s 116], false)]%N; w_log := [] |} in
+  fst (remake c w) = Ok [s 116; s 84; HIO; s 98; [120; 46; 116]]%N /\
+  length (w_log (snd (remake c w))) = 4 /\
+  (forall p, fst (remake c w) = Ok p -> w_fs (snd (clear c p (snd (remake c w)))) = w_fs w) /\
+  fst (remake {| c_name := [[46; 46]; [46; 46]; s 120]%N; c_base := [[]]; c_temp := false; c_clean := false;
+                 c_filed := false; c_ext := false; c_fext := s 116%N; c_head := [s 104]%N; c_alt := [s 97]%N;
+                 c_tmp := [s 116; s 84]%N |} w) = Exc OtherErr.
+Proof. vm_compute. repeat split. intros p H. inversion H; subst. reflexivity. Qed.
